@@ -1067,6 +1067,11 @@ impl TypeSpace {
             ),
         ];
 
+        // Absent an exact match on the bounds, a recognised format's own type
+        // is the fallback as it covers the format's full range (unlike i64
+        // for uint64).
+        let mut fallback_ty = "i64";
+
         if let Some(format) = format {
             if let Some((_fmt, ty, nz_ty, imin, imax)) = formats
                 .iter()
@@ -1100,12 +1105,11 @@ impl TypeSpace {
                     }
                 }
 
-                if min.is_none() {
-                    min = Some(*imin);
-                }
-                if max.is_none() {
-                    max = Some(*imax);
-                }
+                fallback_ty = ty;
+
+                // Intersect the bounds with the format's range.
+                min = Some(min.map_or(*imin, |fmin| fmin.max(*imin)));
+                max = Some(max.map_or(*imax, |fmax| fmax.min(*imax)));
             }
         }
 
@@ -1171,7 +1175,7 @@ impl TypeSpace {
             // bounds.
             // TODO failing that, we should find the type that most tightly
             // matches these bounds.
-            Ok((TypeEntry::new_integer("i64"), metadata))
+            Ok((TypeEntry::new_integer(fallback_ty), metadata))
         }
     }
 
